@@ -25,7 +25,7 @@ func init() {
 		MinEvals:    floor(3900, 110000),
 		MinDistinct: floor(2500, 60000),
 		RequiredCells: func(string) []string {
-			cells := []string{"deep-nesting", "vacuous", "vacuous/no-arguments", "vacuous/unrelated-argument", "far-bounds/inv-exp", "far-bounds/exp>292y", "scale", "scale/long-chain", "scale/deep-command", "scale/many-statements", "scale/principal-thrice", "hook", "meta-plain", "meta-enc", "nonce-long", "cause", "iat=1", "iat=2", "iat=3", "inv-exp", "self-delegation", "subject=invoker", "equal-commands", "top-root", "policy/ipld", "policy/constructors", "no-policy"}
+			cells := []string{"after-a-denied-check-with-incomplete-store", "deep-nesting", "vacuous", "vacuous/no-arguments", "vacuous/unrelated-argument", "far-bounds/inv-exp", "far-bounds/exp>292y", "scale", "scale/long-chain", "scale/deep-command", "scale/many-statements", "scale/principal-thrice", "hook", "meta-plain", "meta-enc", "nonce-long", "cause", "iat=1", "iat=2", "iat=3", "inv-exp", "self-delegation", "subject=invoker", "equal-commands", "top-root", "policy/ipld", "policy/constructors", "no-policy"}
 			for _, a := range []string{"unset", "subject", "invoker", "third", "chain"} {
 				cells = append(cells, "audience="+a)
 			}
@@ -87,6 +87,15 @@ func runC05(w *mon.W) {
 			continue
 		}
 		hook := r.IntN(4) == 0
+		// sometimes the same token object was first checked while its proofs were not all
+		// available yet (a store still filling up): that check is denied, the one after it - with
+		// every delegation loadable - must be allowed all the same
+		if it%3 == 1 && len(b.Cids) > 0 {
+			gone := b.Cids[r.IntN(len(b.Cids))]
+			_ = allowed(b.Inv, &withoutLoader{inner: b.Loader, gone: gone}, r.IntN(2) == 0)
+			w.Eval(1)
+			w.Cover("after-a-denied-check-with-incomplete-store")
+		}
 		e := allowed(b.Inv, b.Loader, hook)
 		w.Eval(1)
 		// coverage
